@@ -109,7 +109,7 @@ func runC18(e *env) error {
 			if len(kb.TypeImports) > 0 {
 				timports = "import (\n\t" + strings.ReplaceAll(strings.Join(kb.TypeImports, "\n\t"), "MODULE", module) + "\n)\n\n"
 			}
-			tree := scratch.Tree{"go.mod": "module " + module + "\n\ngo 1.18\n", "p/types.go": "package p\n\n" + timports + kb.Types, "p/conv.go": "package p\n\n" + convs.String(),
+			tree := scratch.Tree{"go.mod": "module " + module + "\n\ngo 1.18\n", "p/types.go": "package p\n\n" + timports + kb.Types, "p/conv.go": "package p\n\n" + convImports(timports, kb.ConvAnchors) + convs.String(),
 				"p/custom.go": "package p\n\nimport \"" + module + "/rt\"\n\nvar _ = rt.Boom\n\n" + kb.Custom}
 			for k, v := range k2.SupportFiles(module) {
 				tree[k] = v
